@@ -108,6 +108,15 @@ class SourceRepository(Repository):
                 "Failed to parse metadata for %s - %s", source_dir, str(ex)
             )
             return source_dir, None
+        except SystemExit as ex:
+            # Build backends (setuptools) report configuration errors by exiting. In a
+            # pool thread that would kill the worker and leave the results iterator waiting.
+            self.logger.error(
+                "Build backend exited while extracting metadata for %s - %s",
+                source_dir,
+                str(ex),
+            )
+            return source_dir, None
 
     def _find_all_distributions(self, excluded_paths: Iterable[str]) -> None:
         """Find all source distribution possible locations"""
